@@ -93,6 +93,8 @@ def configs(tier, seed):
             c["enum_features"] = True
         if k % 4 == 2:
             c["refused_before"] = sorted({0, len(c["subs"])} if k % 8 == 2 else {len(c["subs"]) // 2})
+        if k % 5 == 3 and len(c["subs"]) >= 2:
+            c["elab_before"] = [len(c["subs"]) - 1]
     return cfgs
 
 
@@ -144,6 +146,9 @@ def build(cfg, upto=None):
         for i in range(len(cfg["subs"]) if upto is None else upto):
             if i in cfg.get("refused_before", ()):
                 refused_add(dec, i)
+            if i in cfg.get("elab_before", ()):
+                from amaranth.hdl import Fragment
+                Fragment.get(dec, None)          # elaborated once with the windows added so far; more are added afterwards
             add(dec, i)
         if len(cfg["subs"]) in cfg.get("refused_before", ()) and upto is None:
             refused_add(dec, len(cfg["subs"]))
